@@ -380,6 +380,36 @@ K3_EXEMPT = {
 }
 
 
+def _time_decay_arrays(f: Func, roles) -> Set[str]:
+    clock = None
+    for n in walk_no_nested(f.node):
+        if isinstance(n, ast.BinOp) and isinstance(n.op, ast.Sub):
+            for side, other in ((n.left, n.right), (n.right, n.left)):
+                if isinstance(side, ast.Subscript) and base_name(side) in roles.per_group_arrays \
+                        and isinstance(other, ast.Subscript) and base_name(other) in f.named_params:
+                    clock = base_name(side)
+    if clock is None:
+        return set()
+    derived: Set[str] = set()
+    changed = True
+    while changed:
+        changed = False
+        for n in walk_no_nested(f.node):
+            if isinstance(n, ast.Assign) and len(n.targets) == 1 and isinstance(n.targets[0], ast.Name) \
+                    and n.targets[0].id not in derived:
+                names = {x.id for x in ast.walk(n.value) if isinstance(x, ast.Name)}
+                subs = {base_name(x) for x in ast.walk(n.value) if isinstance(x, ast.Subscript)}
+                if clock in subs or names & derived:
+                    derived.add(n.targets[0].id); changed = True
+    out = {clock}
+    for n in walk_no_nested(f.node):
+        if isinstance(n, ast.AugAssign) and isinstance(n.op, ast.Mult) and isinstance(n.target, ast.Subscript) \
+                and base_name(n.target) in roles.per_group_arrays \
+                and {x.id for x in ast.walk(n.value) if isinstance(x, ast.Name)} & derived:
+            out.add(base_name(n.target))
+    return out
+
+
 def rule_K3(repo: Repo) -> RuleResult:
     """Masked rows do not change per-group state (stores on not-provably-selected paths are identities)."""
     res = RuleResult("K3", "masked-row non-interference in every kernel with a mask parameter")
@@ -398,6 +428,10 @@ def rule_K3(repo: Repo) -> RuleResult:
             raise AnalysisError(f"K3: cannot find the row loop of kernel {f.qualname}")
         state_arrays = set(roles.per_group_arrays)
         exempt_arrays, exempt_reason = K3_EXEMPT.get((f.module.name, f.qualname), (set(), ""))
+        if exempt_arrays:
+            # the exemption is for a shape, not for spellings: the per-group clock (the array subtracted from times[...])
+            # and the arrays that are multiplied by a factor derived from that difference
+            exempt_arrays = _time_decay_arrays(f, roles) or exempt_arrays
         paths = enumerate_paths(loop.body, limit=4096)
         n_mask_tests = 0
         for p in paths:
